@@ -17,7 +17,7 @@ from .. import cover, gen, itpspec, ref
 LEVEL = 'exploration'
 JOBS = {'quick': 2, 'thorough': 16}
 REQUIRED_MONITORS = ('topology_vs_truth', 'connectivity_vs_unionfind', 'copy_isolation')
-REQUIRED_CLASSES = ('numbering:gaps', 'numbering:offset', 'bonds-three-way', 'decorated', 'kind:forest', 'kind:cyclic',
+REQUIRED_CLASSES = ('numbering:gaps', 'numbering:offset', 'bonds-three-way', 'decorated', 'kind:forest', 'kind:cyclic', 'kind:disconnected-cyclic', 'bonds:exactly-n-1-disconnected',
                     'kind:chain', 'long-chain', 'multi-residue', 'connected:yes', 'connected:no',
                     'repeated-section', 'are_connected:Molecule.atoms', 'shipped')
 RULE = ('generated topology files: graph kind x size (1..3000) x atom numbering (plain/offset/gaps) x bond split over '
@@ -158,6 +158,8 @@ def run_gen(ctx, case):
     for c in truth['classes']:
         ctx.hit('repeated-section' if c.startswith('repeated-section:') else c)
     ctx.hit('kind:' + truth['kind'])
+    if len(truth['bonds']) == truth['n'] - 1 and not ref.connected(truth['n'], truth['bonds']):
+        ctx.hit('bonds:exactly-n-1-disconnected')
     if truth['bonds']:
         ctx.nontrivial((truth['kind'], min(truth['n'] // 10, 6), tuple(sorted(c for c in truth['classes'] if not c.startswith('trailing')))))
     mt = check_against_truth(ctx, path, truth, f'generated#{i}')
